@@ -42,8 +42,31 @@ def _L(tier):
     return 4 if tier == "quick" else 5
 
 
-def shards(tier):
+# hand-written documents with every kind of literal next to every kind of following token (the grammar family reaches most of
+# them only with >= 2 deviations); tokenised by the reference tokenizer
+HAND_DOCS = [
+    "{ f(a: 1.5, b: 1e3, c: -0.0E-2) }",
+    "{ f(a: 1.5) g(b: [1.5, 2.5], c: {x: 1.5, y: 1e3}) }",
+    "query ($v: Float = 1.5, $w: [Float] = [1.5 2.5]) { f(a: $v) @skip(if: true) }",
+    "{ f(a: 1, b: \"s\", c: \"\"\"b\"\"\", d: true, e: null, g: E, h: $v, i: [1.5], j: {k: 1.5}) }",
+    "type T { f(a: Float = 1.5, b: Int = 1, c: String = \"s\", d: [Float] = [1.5]): Int @d(x: 1.5) }",
+    "directive @d(x: Float = 1.5 @e(y: 2.5)) on FIELD",
+    "extend schema @d(x: 1.5) { query: Q }",
+    "{ ...F @d(x: 1.5) ... on T @d(x: 1.5) { a } } fragment F on T @d(x: 1.5) { a }",
+    "enum E { A @d(x: 1.5) B } input I { a: Float = 1.5 b: Float = 2.5 }",
+]
+
+
+def hand_tokens(src):
+    rev = {v: k for k, v in KIND.items()}
     out = []
+    for kind, a, b, val in ref.tokens(src):
+        out.append((rev.get(kind, "P"), src[a:b], val if kind in rev else None))
+    return out
+
+
+def shards(tier):
+    out = [("hand", i) for i in range(len(HAND_DOCS))]
     for i in range(len(SIGMA)):
         for j in (range(len(SIGMA)) if tier == "thorough" else [None]):
             out.append(("lex", (i, j)))
@@ -318,7 +341,15 @@ def run_shard(shard, tier):
     def viol(sig, s, summary):
         res.violation(sig, f"source {s!r}: {summary}", {"mode": mode["m"], "source": s, "flags": mode.get("flags"), "tokens": mode.get("tokens")})
 
-    if kind == "lexshort":
+    if kind == "hand":
+        toks = hand_tokens(HAND_DOCS[arg])
+        mode["m"] = "doc"
+        mode["flags"] = [True, True]
+        mode["tokens"] = [list(t) for t in toks]
+        check_document(toks, (True, True), tier, res, viol)
+        res.states += 1
+        res.transitions += len(toks)
+    elif kind == "lexshort":
         for n in range(0, 2 if tier == "quick" else 3):
             for tup in itertools.product(SIGMA, repeat=n):
                 s = "".join(tup)
